@@ -46,10 +46,20 @@ type wconn struct {
 	idx   int
 	alive atomic.Bool
 	rtt   atomic.Int64
+	// afterHead, if armed, runs once right after the next MasterHead() has read the head and
+	// before it returns: a schedule point at the connection interface ("the next block arrives
+	// exactly now")
+	afterHead atomic.Pointer[func()]
 }
 
-func (w *wconn) ID() int                              { return w.inner.ID() }
-func (w *wconn) MasterHead() ton.BlockIDExt           { return w.inner.MasterHead() }
+func (w *wconn) ID() int { return w.inner.ID() }
+func (w *wconn) MasterHead() ton.BlockIDExt {
+	h := w.inner.MasterHead()
+	if f := w.afterHead.Swap(nil); f != nil {
+		(*f)()
+	}
+	return h
+}
 func (w *wconn) SetMasterHead(h ton.BlockIDExt)       { w.inner.SetMasterHead(h) }
 func (w *wconn) IsOK() bool                           { return w.alive.Load() }
 func (w *wconn) Client() *liteclient.Client           { return nil }
@@ -1254,6 +1264,112 @@ func reproPoolStuck() (bool, string) {
 	return false, fmt.Sprintf("%d pool calls in %v", total(), stressFor)
 }
 
+// refreshes of the best connection while heads keep arriving (no hook inside updateBest: real
+// connection objects, real SetMasterHead from a publisher goroutine, the real Run loop draining
+// the updates).  Connection 0 is dead and is the previous choice of every refresh; connection 1
+// is alive, has the lowest round-trip time and always has the newest head of the pool, so every
+// refresh must choose it, whether or not a block reaches it while the refresh runs.
+func reproRefreshWhileHeadsArrive() (bool, string) {
+	const stressFor = 500 * time.Millisecond
+	for strat := 0; strat < 2; strat++ {
+		p, conns, wraps := newWalkPool(strat, 3)
+		ctx, cancel := context.WithCancel(context.Background())
+		go p.Run(ctx)
+		for i := range conns {
+			conns[i].SetMasterHead(100)
+		}
+		wraps[0].alive.Store(false)
+		wraps[1].alive.Store(true)
+		wraps[2].alive.Store(true)
+		wraps[0].rtt.Store(30)
+		wraps[1].rtt.Store(2)
+		wraps[2].rtt.Store(20)
+		var stop atomic.Bool
+		pubDone := goStep(func() {
+			for h := uint32(101); !stop.Load(); h++ {
+				conns[1].SetMasterHead(h)
+				if h%3 == 0 {
+					conns[2].SetMasterHead(h - 1) // stays at most one block behind
+				}
+			}
+		})
+		all := []pool.VerifConn{wraps[0], wraps[1], wraps[2]}
+		begin := time.Now()
+		refreshes := 0
+		bad := ""
+		for time.Since(begin) < stressFor && bad == "" {
+			for k := 0; k < 256 && bad == ""; k++ {
+				q := pool.VerifNewPool(stratNames[strat], all, wraps[0])
+				best := q.VerifUpdateBest()
+				refreshes++
+				if best == nil || best.ID() != 1 {
+					id := -1
+					if best != nil {
+						id = best.ID()
+					}
+					bad = fmt.Sprintf("strategy %s: refresh %d chose connection #%d (alive=%v, head %d) although connection #1 is alive, has the lowest round-trip time and the newest head (%d); heads were arriving during the refresh",
+						stratNames[strat], refreshes, id, id >= 0 && wraps[id].alive.Load(), headOf(wraps, id), wraps[1].MasterHead().Seqno)
+				}
+			}
+		}
+		stop.Store(true)
+		ok := finished(pubDone, 5*time.Second)
+		cancel()
+		if bad != "" {
+			return true, bad
+		}
+		if !ok {
+			return true, "the publisher did not finish: SetMasterHead is stuck"
+		}
+	}
+	return false, ""
+}
+
+func headOf(ws []*wconn, id int) uint32 {
+	if id < 0 || id >= len(ws) {
+		return 0
+	}
+	return ws[id].MasterHead().Seqno
+}
+
+// a head update that lands inside subscribe, right after it has read the best connection's
+// head: the next block arrives and Run handles it while the caller is still inside subscribe.
+// The check of the head and the registration are one critical section, so Run's notification
+// waits for it and finds the waiter registered; the caller must return nil.
+func reproHeadDuringSubscribe() (bool, string) {
+	p, conns, wraps := newWalkPool(0, 1)
+	conns[0].SetMasterHead(5)
+	if u, ok := p.VerifTakeUpdate(); ok {
+		p.VerifNotify(u)
+	}
+	handled := make(chan struct{})
+	hook := func() {
+		go func() {
+			conns[0].SetMasterHead(6)
+			for k := 0; k < 2000; k++ {
+				if u, ok := p.VerifTakeUpdate(); ok {
+					p.VerifNotify(u) // what Run does with the update
+					break
+				}
+				time.Sleep(100 * time.Microsecond)
+			}
+			close(handled)
+		}()
+		finished(handled, 20*time.Millisecond) // give Run the chance to be faster than the caller
+	}
+	wraps[0].afterHead.Store(&hook)
+	var err error
+	d := goStep(func() { err = p.WaitMasterchainSeqno(context.Background(), 6, 400*time.Millisecond) })
+	if !finished(d, 5*time.Second) {
+		return true, "WaitMasterchainSeqno(6, timeout 400ms) did not return within 5s"
+	}
+	finished(handled, time.Second)
+	if err != nil {
+		return true, fmt.Sprintf("WaitMasterchainSeqno(6) = %v although the best connection reported head 6 (published, handled by Run) while the caller was inside subscribe; head now %d", err, conns[0].Conn().MasterHead().Seqno)
+	}
+	return false, ""
+}
+
 // observation (outside the property's quantifier: pools of 1..4 connections)
 func reproEmptyPoolPanic() (panicked bool, what string) {
 	defer func() {
@@ -1278,6 +1394,8 @@ var c13Repros = []c13Repro{
 	{"subscribe-sethead-deadlock", reproSubscribeSetHead},
 	{"wait-timeout-restarts", reproTimeoutRestarts},
 	{"pool-stuck", reproPoolStuck},
+	{"updatebest-racing-head", reproRefreshWhileHeadsArrive},
+	{"subscribe-lost-wakeup", reproHeadDuringSubscribe},
 }
 
 // c13.repro: n -> 'ok | 'bad   (the model has no such behaviour: always 'ok)
